@@ -1,6 +1,6 @@
 (* C16 — Frame codec round-trips, rejects malformed input, CRC catches <= 4 flips.
    This file only pins statements; the proofs live in proofs/. *)
-From UF Require Import Consts Base Crc Frame Codec CodecRoundtrip CodecTotal.
+From UF Require Import Consts Base Crc Frame Codec CodecRoundtrip CodecTotal CrcHdFrame.
 
 (* Serialising any representable frame and parsing the bytes yields the same frame. *)
 Theorem C16_roundtrip :
@@ -14,6 +14,38 @@ Theorem C16_read_total :
 Proof. exact read_frame_total. Qed.
 Print Assumptions C16_read_total.
 
+(* Every CRC-carrying byte string of at most MAX_FRAME_SIZE (1472) bytes — in particular every serialised frame —
+   altered in one to four distinct bit positions (byte index, bit index) is rejected by the reader.
+   Proved by an exhaustive search over all 1..4-bit error patterns on 11776 bits, carried out inside the
+   kernel's evaluator (crc_hd/CrcHdShard*.v) after reducing patterns to powers of the CRC's bit step. *)
+Theorem C16_crc_hd :
+  forall (body : list N) (ps : list (nat * nat)),
+    Forall (fun b => b < 256) body ->
+    len (with_crc body) <= MAX_FRAME_SIZE ->
+    NoDup ps -> (1 <= length ps <= 4)%nat ->
+    Forall (fun p => (fst p < length (with_crc body))%nat /\ (snd p < 8)%nat) ps ->
+    read_frame (flips (with_crc body) ps) = Ok None.
+Proof. exact crc_detects_1_to_4_flips. Qed.
+Print Assumptions C16_crc_hd.
+
+Theorem C16_frame_flips_rejected :
+  forall (f : frame) (ps : list (nat * nat)),
+    bytes_ok (write_frame f) = true ->
+    len (write_frame f) <= MAX_FRAME_SIZE ->
+    NoDup ps -> (1 <= length ps <= 4)%nat ->
+    Forall (fun p => (fst p < length (write_frame f))%nat /\ (snd p < 8)%nat) ps ->
+    read_frame (flips (write_frame f) ps) = Ok None.
+Proof. exact frame_flips_rejected. Qed.
+Print Assumptions C16_frame_flips_rejected.
+
+(* non-vacuity: an accepted frame, four flips spread over header, payload and CRC, rejected *)
+Example C16_crc_hd_example :
+  let f := FData 7 true [mkDg 5 17 128 256 0 0 [9; 200; 31]] in
+  read_frame (write_frame f) = Ok (Some f)
+  /\ bytes_ok (write_frame f) = true
+  /\ read_frame (flips (write_frame f) [(0, 1); (7, 7); (9, 0); (length (write_frame f) - 1, 3)]%nat) = Ok None.
+Proof. vm_compute. repeat split. Qed.
+
 (* non-vacuity: a representable frame using all three datagram encodings exists *)
 Example C16_representable_example :
   representable (FData 4294967295 true
@@ -22,3 +54,8 @@ Proof. vm_compute. reflexivity. Qed.
 
 Check C16_roundtrip : forall f : frame, representable f = true -> read_frame (write_frame f) = Ok (Some f).
 Check C16_read_total : forall bs : list N, exists r : option frame, read_frame bs = Ok r.
+Check C16_crc_hd : forall (body : list N) (ps : list (nat * nat)),
+    Forall (fun b => b < 256) body -> len (with_crc body) <= MAX_FRAME_SIZE ->
+    NoDup ps -> (1 <= length ps <= 4)%nat ->
+    Forall (fun p => (fst p < length (with_crc body))%nat /\ (snd p < 8)%nat) ps ->
+    read_frame (flips (with_crc body) ps) = Ok None.
